@@ -1,7 +1,7 @@
 #!/bin/bash
 # confirm_mut2.sh <ID> <demo .rs file name in mutant/ (without .rs)> [extra cargo test args after --]
 # like confirm_mut.sh, but the demo lives in mutant/ and is copied into memcrs/tests for the runs
-ID=$1; DEMO=$2; shift 2; W=/tmp/mut/$ID
+ID=$1; DEMO=$2; shift 2; W=/tmp/${MUTROOT:-mut}/$ID
 cd $W || exit 2
 rm -rf $W/memcrs/tests
 git checkout -q -- memcrs/src memcrs/Cargo.toml 2>/dev/null
@@ -13,9 +13,9 @@ echo "--- 92 tests with the change"
 cargo test --workspace --offline --target-dir $W/target 2>&1 | grep -E "^test result: .* [0-9]+ passed" | head -1
 mkdir -p memcrs/tests; cp mutant/$DEMO.rs memcrs/tests/
 echo "--- demo WITH the change"
-$PRE cargo test --offline -p memcrs --target-dir $W/${TGT:-target} --test $DEMO "$@" 2>&1 | grep -E "^test result|panicked|^error" | head -4
+$PRE cargo test --offline -p memcrs --target-dir $W/${TGT:-target} --test $DEMO "$@" 2>&1 | grep -E "^test result" | head -2
 git apply -R mutant/patch.diff
 echo "--- demo WITHOUT the change"
-$PRE cargo test --offline -p memcrs --target-dir $W/${TGT:-target} --test $DEMO "$@" 2>&1 | grep -E "^test result|panicked|^error" | head -4
+$PRE cargo test --offline -p memcrs --target-dir $W/${TGT:-target} --test $DEMO "$@" 2>&1 | grep -E "^test result" | head -2
 git apply mutant/patch.diff
 rm -rf memcrs/tests
